@@ -195,4 +195,176 @@ theorem cov_toEnd (f : Nat) (item : Dop) (ihd : Cov f (.dop item) (decodeDopL f 
       exact (ihd.of_error hrun he).imp id fun h => h.lift rfl rfl fun dr bl hr => .endHead f item ls.st dr bl hlt hr
   · exact .inl he
 
+/-! ### computations that do not log -/
+
+def NoLog {α : Type} (m : LogM α) : Prop := ∀ ls b, resLog (m ls b) = ls.log
+
+theorem nolog_pure {α} (a : α) : NoLog (Pure.pure a : LogM α) := fun _ _ => rfl
+theorem nolog_pure' {α} (a : α) : NoLog (OdxM.pure a : LogM α) := fun _ _ => rfl
+theorem nolog_raise {α} (e : Err) : NoLog (raise e : LogM α) := fun _ _ => rfl
+theorem nolog_odxraise (e : Err) : NoLog (odxraise e : LogM Unit) := by intro ls b; cases b <;> rfl
+theorem nolog_odxassert (c : Bool) : NoLog (odxassert c : LogM Unit) := by
+  unfold odxassert; split
+  · exact nolog_pure' ()
+  · exact nolog_odxraise _
+theorem nolog_liftD {α} (m : DecM α) : NoLog (liftD m) := by
+  intro ls b
+  unfold liftD
+  cases hm : m ls.st b with
+  | ok p => obtain ⟨a, s⟩ := p; rfl
+  | error p => obtain ⟨e, s⟩ := p; rfl
+theorem nolog_getD : NoLog getD := nolog_liftD _
+theorem nolog_modD (f : DecState → DecState) : NoLog (modD f) := nolog_liftD _
+theorem nolog_bind' {α β} (m : LogM α) (f : α → LogM β) (hm : NoLog m) (hf : ∀ a, NoLog (f a)) : NoLog (OdxM.bind m f) := by
+  intro ls b
+  unfold OdxM.bind
+  have h1 := hm ls b
+  cases hms : m ls b with
+  | error x => obtain ⟨e0, l0⟩ := x; rw [hms] at h1; exact h1
+  | ok p =>
+    obtain ⟨a, l1⟩ := p
+    rw [hms] at h1
+    simp only []
+    rw [hf a l1 b]; exact h1
+theorem nolog_bind {α β} (m : LogM α) (f : α → LogM β) (hm : NoLog m) (hf : ∀ a, NoLog (f a)) : NoLog (m >>= f) :=
+  nolog_bind' m f hm hf
+theorem nolog_ite {α} (c : Prop) [Decidable c] (a b : LogM α) (ha : NoLog a) (hb : NoLog b) : NoLog (if c then a else b) := by
+  split <;> assumption
+
+/-- entries of `m >>= k` with a continuation that does not log are entries of `m` -/
+theorem mem_bind_nolog {α β : Type} {m : LogM α} {k : α → LogM β} (hk : ∀ a, NoLog (k a)) {ls : LState} {b : Bool} {e : LEntry}
+    (he : e ∈ resLog ((m >>= k) ls b)) : e ∈ resLog (m ls b) := by
+  change e ∈ resLog (OdxM.bind m k ls b) at he
+  unfold OdxM.bind at he
+  cases hms : m ls b with
+  | error x => obtain ⟨e0, l0⟩ := x; rw [hms] at he; exact he
+  | ok p =>
+    obtain ⟨a, l1⟩ := p
+    rw [hms] at he
+    simp only [] at he
+    rw [hk a l1 b] at he
+    exact he
+
+attribute [irreducible] NoLog
+
+macro "nolog_step" : tactic =>
+  `(tactic| first
+    | exact nolog_pure _ | exact nolog_pure' _ | exact nolog_raise _ | exact nolog_odxraise _ | exact nolog_odxassert _
+    | exact nolog_getD | exact nolog_modD _
+    | assumption
+    | apply nolog_bind | apply nolog_bind' | apply nolog_ite
+    | intro _)
+macro "nolog" : tactic => `(tactic| repeat (first | nolog_step | split | dsimp only))
+
+theorem nolog_methodI2P (arith : Err) (m : Compu.Method) (i : Compu.Val) : NoLog (methodI2P arith m i : LogM (Option Compu.Val)) := by
+  unfold methodI2P
+  cases m <;> simp only [] <;> nolog
+theorem nolog_dopI2P (m : Compu.Method) (v : IVal) : NoLog (dopI2P m v : LogM (Option IVal)) := by
+  unfold dopI2P
+  repeat (first | exact nolog_methodI2P _ _ _ | nolog_step | split | dsimp only)
+
+theorem Cov.bind_nolog {f : Nat} {site : Site} {α β : Type} {m : LogM α} {k : α → LogM β} (h : Cov f site m)
+    (hk : ∀ a, NoLog (k a)) : Cov f site (m >>= k) := fun ls e he => h ls e (mem_bind_nolog hk he)
+
+/-- the leaves (`decodeDctL_requests`) -/
+theorem cov_dct (n : Nat) (c : Dct) : Cov n (.dct c) (decodeDctL c) := by
+  intro ls e he
+  rcases decodeDctL_requests n c ls e he with h | ⟨hp, h⟩
+  · exact .inl h
+  · exact .inr ⟨fun h1 => hp.trans h1, .inr h⟩
+
+/-- one `extractAtomicL` of an unsigned object (RESERVED, MATCHING-REQUEST-PARAM) -/
+theorem extractAtomicL_entries (bl : Nat) (bt : BaseType) (enc : Option Enc) (hl : Bool) (ls : LState) (e : LEntry)
+    (he : e ∈ resLog (extractAtomicL bl bt enc hl ls true)) : e ∈ ls.log ∨ (readable bt bl ∧ e = entryOf ls bl) := by
+  have h := extractAtomicL_strict bl bt enc hl ls
+  cases hrun : extractAtomicL bl bt enc hl ls true with
+  | ok q => obtain ⟨w, ls1⟩ := q; rw [hrun] at h he; exact h.2.mem he
+  | error q => obtain ⟨err, ls1⟩ := q; rw [hrun] at h he; exact h.mem he
+
+/-! ### parameters -/
+
+/-- the kind-specific part of `decodeParamL` -/
+def paramBodyL (f : Nat) (name : String) (kind : PKind) : LogM PVal :=
+  match kind with
+  | .codedConst dct _ => do
+    let v ← decodeDctL dct
+    pure (PVal.atom v)
+  | .physConst dop value => do
+    let v ← decodeDopL f dop
+    if !(pvalEq v value) then
+      (if numericPair v value then raise .unmodelled
+       else odxraise .decode)
+    pure v
+  | .value dop _ => decodeDopL f dop
+  | .reserved bl => do
+    let v ← extractAtomicL bl .uint32 none false
+    pure (PVal.atom v)
+  | .matchingReq _ byteLen => do
+    let v ← extractAtomicL (8 * byteLen) .uint32 none false
+    pure (PVal.atom v)
+  | .nrcConst dct values => do
+    let v ← decodeDctL dct
+    if values.contains v then pure (PVal.atom v) else raise .mismatch
+  | .lengthKey dop => do
+    let v ← decodeDopL f dop
+    match v with
+    | .atom (.int i) => do
+      modD fun s => { s with lengthKeys := insertKV name i s.lengthKeys }
+      pure v
+    | _ => do odxraise .odx; raise .unmodelled
+  | .unsupported => raise .unmodelled
+
+theorem decodeParamL_eq (f : Nat) (name : String) (bp bit : Option Nat) (kind : PKind) :
+    decodeParamL (f + 1) (.mk name bp bit kind) = (do
+      modD fun s => s.atParam bp bit
+      let r ← paramBodyL f name kind
+      modD fun s => { s with cursorBit := 0 }
+      pure r) := by
+  cases kind <;> rfl
+
+/-- the entries of a parameter are the entries of its body, started at the position of the parameter -/
+theorem param_body_mem (f : Nat) (name : String) (bp bit : Option Nat) (kind : PKind) (ls : LState) (e : LEntry)
+    (he : e ∈ resLog (decodeParamL (f + 1) (.mk name bp bit kind) ls true)) :
+    e ∈ resLog (paramBodyL f name kind { ls with st := ls.st.atParam bp bit } true) := by
+  rw [decodeParamL_eq] at he
+  change e ∈ resLog ((paramBodyL f name kind >>= fun r => (modD (fun s => { s with cursorBit := 0 }) >>= fun _ => pure r))
+    { ls with st := ls.st.atParam bp bit } true) at he
+  exact mem_bind_nolog (fun r => by nolog) he
+
+theorem cov_param (f : Nat) (name : String) (bp bit : Option Nat) (kind : PKind)
+    (ihd : ∀ d, Cov f (.dop d) (decodeDopL f d)) :
+    Cov (f + 1) (.param (.mk name bp bit kind)) (decodeParamL (f + 1) (.mk name bp bit kind)) := by
+  intro ls e he
+  have hb := param_body_mem f name bp bit kind ls e he
+  cases kind with
+  | codedConst dct v =>
+    exact ((cov_dct f dct).bind_nolog (fun _ => nolog_pure _) _ e hb).imp id fun h =>
+      h.lift rfl rfl fun dr bl hr => .codedConst f name bp bit dct v ls.st dr bl hr
+  | physConst dop v =>
+    exact ((ihd dop).bind_nolog (fun _ => by nolog) _ e hb).imp id fun h =>
+      h.lift rfl rfl fun dr bl hr => .physConst f name bp bit dop v ls.st dr bl hr
+  | value dop dv =>
+    exact ((ihd dop) _ e hb).imp id fun h =>
+      h.lift rfl rfl fun dr bl hr => .value f name bp bit dop dv ls.st dr bl hr
+  | reserved bl =>
+    have h1 := mem_bind_nolog (m := extractAtomicL bl .uint32 none false) (k := fun v => (pure (PVal.atom v) : LogM PVal))
+      (fun _ => nolog_pure _) hb
+    rcases extractAtomicL_entries _ _ _ _ _ e h1 with h | ⟨hr, rfl⟩
+    · exact .inl h
+    · exact .inr ⟨fun h => h, .inr (.inl ⟨ls.st.atParam bp bit, bl, .reserved f name bp bit bl ls.st hr.1, rfl, rfl⟩)⟩
+  | matchingReq rp n =>
+    have h1 := mem_bind_nolog (m := extractAtomicL (8 * n) .uint32 none false) (k := fun v => (pure (PVal.atom v) : LogM PVal))
+      (fun _ => nolog_pure _) hb
+    rcases extractAtomicL_entries _ _ _ _ _ e h1 with h | ⟨hr, rfl⟩
+    · exact .inl h
+    · exact .inr ⟨fun h => h, .inr (.inl ⟨ls.st.atParam bp bit, 8 * n,
+        .matchingReq f name bp bit rp n ls.st (fun h0 => hr.1 (by rw [h0])), rfl, rfl⟩)⟩
+  | nrcConst dct vs =>
+    exact ((cov_dct f dct).bind_nolog (fun _ => by nolog) _ e hb).imp id fun h =>
+      h.lift rfl rfl fun dr bl hr => .nrcConst f name bp bit dct vs ls.st dr bl hr
+  | lengthKey dop =>
+    exact ((ihd dop).bind_nolog (fun _ => by nolog) _ e hb).imp id fun h =>
+      h.lift rfl rfl fun dr bl hr => .lengthKey f name bp bit dop ls.st dr bl hr
+  | unsupported => exact .inl hb
+
 end OdxVerif.Codec
